@@ -26,6 +26,7 @@
 //	session:lost-after-leader-change / resurrected-after-leader-change / never-expires-after-leader-change   (lagging.go)
 //	session:restored-with-foreign-metadata / expired-before-its-own-timeout-after-leader-change /
 //	session:outlived-its-own-timeout-after-leader-change                                                   (multi.go)
+//	session-cleanup:duplicate-cleanup-entry / session-cleanup:deleted-record-not-owned:after-session-removed   (dupclose.go)
 //	session:leader-close-blocked-by-expiring-session   (watchdog of the leader-change scenario, see closeLeader)
 //
 // The O-12 schedules are forced, not raced: the kv.Factory handed to the controller is wrapped, and the key iterator
@@ -969,6 +970,10 @@ func main() {
 		scens = append(scens, scen{"o12-close", 0, v + 5*rng.Intn(2)}, scen{"o12-expiry", 150 * time.Millisecond, v + 5*rng.Intn(2)})
 	}
 	scens = append(scens, scen{"close-during-expiry", 100 * time.Millisecond, 0})
+	// a second end of a session (duplicate CloseSession / expiry) while its clean-up entry is in flight (dupclose.go)
+	for v := 0; v < 4; v++ {
+		scens = append(scens, scen{"dup-close", 0, v})
+	}
 	// leader changes with four live sessions of different timeouts / identities (multi.go): both paths, with the last
 	// created (highest id) session being the longest (order 0) and the shortest (order 1), plus two seeded picks
 	for _, v := range []int{0, 1, 2, 3} { // path = v%2, order = v/2
@@ -1001,6 +1006,8 @@ func main() {
 			defer func() { <-sem }()
 			if s.name == "lagging-leader" {
 				runLagging(s, o, &mu)
+			} else if s.name == "dup-close" {
+				runDupClose(s, o, &mu)
 			} else if s.name == "multi-timeout" {
 				runMulti(s, o, &mu)
 			} else {
